@@ -56,7 +56,13 @@ class SpecDataset(metaclass=Plugin):
         ]
 
     def __getattr__(self, attr):
+        if not attr.startswith("_") and hasattr(SpecArray, attr):
+            return getattr(self.dset[attrs.SPECNAME].spec, attr)
         return getattr(self.dset, attr)
+
+    def __dir__(self):
+        public = [attr for attr in dir(SpecArray) if not attr.startswith("_")]
+        return sorted(set(super().__dir__()).union(public))
 
     def __repr__(self):
         return re.sub(r"<.+>", f"<{self.__class__.__name__}>", str(self.dset))
@@ -68,11 +74,12 @@ class SpecDataset(metaclass=Plugin):
         For example:
             self.spec.hs() becomes equivalent to self.efth.spec.hs()
 
+        Attributes are resolved on access (see __getattr__) so they always refer to
+        the current efth variable rather than the one defined when the accessor
+        was first created.
+
         """
-        for method_name in dir(self.dset[attrs.SPECNAME].spec):
-            if not method_name.startswith("_"):
-                method = getattr(self.dset[attrs.SPECNAME].spec, method_name)
-                setattr(self, method_name, method)
+        self.dset[attrs.SPECNAME]
 
     def _check_and_stack_dims(self):
         """Ensure dimensions are suitable for dumping in some ascii formats.
